@@ -76,7 +76,8 @@ class Dict(dictattr):
     def copy(self):
         return copy(self)
 
-    def __call__(self, **kwargs):
+    def __call__(self, /, **kwargs):
+        # self is positional-only: 'self' is a key like any other
         res = self.copy()
         res.update({key : value for key, value in kwargs.items() if not callable(value)})
         callables = {key: value for key, value in kwargs.items() if callable(value)}
